@@ -239,6 +239,9 @@ func (ex *Exec) inline(fr *Frame, callee *ssa.Function, binds []Val, args []Val,
 			if isImplements(r.Expr) {
 				continue
 			}
+			if len(r.Scope) > 0 && ex.inScope(fr, r.Scope) == r.Outside {
+				continue
+			}
 			env.goal = true
 			g := env.Bool(r.Expr)
 			env.goal = false
@@ -739,9 +742,42 @@ func (ex *Exec) applyContract(fr *Frame, c *FuncContract, callee *ssa.Function, 
 			if st.writes != nil {
 				st.writes.ghost[u.Ghost] = true
 			}
+			ex.protectedWrite(fr, st, u.Ghost, c.Name)
 		}
 	}
 	k(st, res, false)
+}
+
+// protectedWrite: a ghost variable protected by a monitor with interference is written. When the path has taken that
+// monitor's mutex before (the function works under this monitor) but does not hold it at this point, the write happens
+// outside the critical section: other threads see the state before it (a waiter queued after the holder's release has
+// looked at the queue is never woken).
+func (ex *Exec) protectedWrite(fr *Frame, st *State, ghost, callee string) {
+	vc := ex.vc
+	for _, mi := range st.monInst {
+		md := mi.md
+		if md.Rely == nil {
+			continue
+		}
+		prot := false
+		for _, pr := range md.Protects {
+			prot = prot || pr == "ghost "+ghost || pr == ghost
+		}
+		if !prot {
+			continue
+		}
+		id := md.Type + "." + md.Field + "@" + mi.self.S
+		held := false
+		for _, h := range st.held {
+			held = held || h == id
+		}
+		if held {
+			continue
+		}
+		vc.curProps = md.Props
+		ex.obligationFull(fr, st, "protocol", fmt.Sprintf("%s changes %s, which %s.%s protects, while the mutex taken earlier on this path is not held", shortName(callee), ghost, md.Type, md.Field), "false", false, fmt.Sprintf("monitor.%s.unlocked-write", md.Field), false)
+		vc.curProps = nil
+	}
 }
 
 func isImplements(e Expr) bool {
